@@ -86,6 +86,8 @@ var declPool = []poolEntry{
 	{Text: "\nfunc (v $T) Val$U() string {\n\treturn \"v\"\n}\n", Method: true},
 	// whitespace only gofumpt (not gofmt) normalises: the file is canonical only if gofumpt really ran
 	{Text: "\nfunc Loose$U() int {\n\n\tx := 1\n\n\treturn x\n\n}\n"},
+	// percent signs: rendered text is data, never a format string
+	{Text: "\nconst Pct$U = \"100%% of %d items: %s %v 5%\"\n\n// Rate$U is 50% (not %!d).\nfunc Rate$U() string { return `LIKE 'a%'` }\n"},
 	// gofumpt's version-gated rule: legacy octal literals become 0o... when the module's go version allows it
 	{Text: "\nconst Perm$U = 0644\n"},
 	{Text: "\nvar Comp$U = []int{\n\t1,\n\t2,\n}\n\nfunc After$U() {}\n"},
@@ -110,6 +112,11 @@ func sanitize(s string) string {
 	}
 	return sb.String()
 }
+
+// ValueKinds are the map values a script can render through snippet.Value: JSON of a map[string]int, or
+// the name of a map with non-string keys built in the worker ("float-keys": map[float64]int with integral
+// and fractional keys, "uint-keys": map[uint64]int with a key above MaxInt64, "int-keys", "bool-keys").
+var ValueKinds = []string{`{"b":2,"a":1,"c":3,"aa":4,"B":5}`, "float-keys", "uint-keys", "int-keys", "bool-keys", `{"10":1,"9":2,"1e3":3}`}
 
 // ScriptConfig is the swarm configuration for generator scripts.
 type ScriptConfig struct {
@@ -195,7 +202,7 @@ func drawParts(r *Rng, cfg ScriptConfig, m *ModuleSpec, pi int, td TypeDecl, gen
 	}
 	if r.P(cfg.PValue) {
 		u := fmt.Sprintf("%s_%s_v", sanitize(gen), td.Name)
-		parts = append(parts, proto.Part{Text: "\nvar Val" + u + " = "}, proto.Part{Value: `{"b":2,"a":1,"c":3,"aa":4}`}, proto.Part{Text: "\n"})
+		parts = append(parts, proto.Part{Text: "\nvar Val" + u + " = "}, proto.Part{Value: Pick(r, ValueKinds)}, proto.Part{Text: "\n"})
 	}
 	return parts
 }
@@ -219,6 +226,9 @@ func DrawScript(r *Rng, cfg ScriptConfig, m *ModuleSpec, name string) proto.GenS
 				// rule w3: ErrIgnore only from GenerateType, and it renders nothing
 				rule.Ret = Pick(r, []string{"ignore", "ignore", "wrapped-ignore"})
 			case r.P(cfg.PNothing):
+			case r.P(cfg.PDefer / 3):
+				// nothing is rendered from GenerateType itself: all output comes from deferred callbacks
+				rule.Defers = append(rule.Defers, proto.Rule{Render: []proto.Part{{Text: fmt.Sprintf("\nfunc OnlyDeferred_%s_%s() {}\n", sanitize(name), td.Name)}}})
 			default:
 				rule.Render = drawParts(r, cfg, m, pi, td, name, r.Range(1, 2))
 				if stateful {
@@ -254,7 +264,7 @@ func Probe() proto.GenScript { return proto.GenScript{Name: "probe", Impl: "prob
 
 // EntrySpelling returns one way to name package pi on the command line.
 func EntrySpelling(r *Rng, m *ModuleSpec, pi int) string {
-	if r.P(0.5) {
+	if r.P(0.5) || m.Pkgs[pi].InSub {
 		return m.ImportPath(pi)
 	}
 	if m.Pkgs[pi].Dir == "" {
